@@ -390,6 +390,9 @@ class Report:
                     exit_code = 2
             else:
                 self.engine_errors.append("obligation %s: %s" % (o.id, (o.solver_output or o.detail or "")))
+        # a replayed or reported violation dominates undecided obligations (exit 1 whenever a VIOLATION line is printed)
+        if self.violations:
+            exit_code = 1
         if self.engine_errors and exit_code != 1:
             exit_code = 3
         for e in self.engine_errors:
